@@ -2030,7 +2030,8 @@ protected:    // interface for the derived class
                     m_events_queue.m_deferred_events_queue.end(),
                     [](typename deferred_events_queue_t::value_type const& d1, typename deferred_events_queue_t::value_type const& d2)
                     {
-                        return d1.second > d2.second;
+                        // sequence numbers wrap around (char): compare by wrapped difference
+                        return static_cast<signed char>(d1.second - d2.second) > 0;
                     }
                 );
                 // reset sequence number for all
